@@ -2,6 +2,7 @@
 //! shards runs over processes, aggregates the JSON summaries and applies the verdict discipline.
 mod c11;
 mod dump;
+mod idset;
 mod model;
 mod monitors;
 mod ops;
@@ -25,6 +26,7 @@ fn main() {
         "replay" => runner::cmd_replay(&args),
         "seq" => seqmodel::cmd_seq(&args),
         "undo" => undo::cmd_undo(&args),
+        "idset" => idset::cmd_idset(&args),
         _ => {
             eprintln!("usage: ymon sim|replay ...");
             2
